@@ -64,10 +64,18 @@ class _Alarm(object):
 
 def run_one(mod, scn, cap=None):
     """-> outcome dict; never raises (harness errors are recorded)."""
-    cap = cap or getattr(mod, 'WORLD_CAP_S', 20)
+    cap = cap or getattr(mod, 'WORLD_CAP_S', 60)
     try:
-        with _Alarm(cap):
-            out = mod.run(scn)
+        try:
+            with _Alarm(cap):
+                out = mod.run(scn)
+        except core.WorldTimeout:
+            # a loaded machine must not turn into a verdict: run the world once more with a much larger cap
+            core._state.world = None
+            core._tls.depth = 0
+            with _Alarm(cap * 4):
+                out = mod.run(scn)
+            out.setdefault('probes', {})['slow-world-needed-retry'] = 1
     except core.WorldTimeout as e:
         core._state.world = None
         core._tls.depth = 0
